@@ -22,7 +22,7 @@
    C18_io_exact (with C18_table_consistent, C18_poll_reports, C18_new_slot_silent), and the two
    refutations of the pinned behaviour. *)
 From Coq Require Import ZArith List.
-From Tickit Require Import LoopDefs LoopSigDefs LoopSigProofs LoopSigIO.
+From Tickit Require Import LoopDefs LoopSigDefs LoopSigProofs LoopSigIO LoopPipeDefs LoopPipeProofs.
 Import ListNotations.
 Local Open Scope Z_scope.
 
@@ -131,11 +131,52 @@ Theorem C18_io_exact_refuted_pinned :
 Proof. exact io_exact_refuted_pinned. Qed.
 Print Assumptions C18_io_exact_refuted_pinned.
 
+(* ---- the self-pipe fallback of tickit.c (event loops without a ->signal hook; LoopPipeDefs):
+   signals are not blocked there, the handler records the signal and writes a wakeup byte the
+   moment it is raised -- before an iteration, from a deferred callback, right after the wakeup
+   read, or from inside a signal callback while on_sigpipe_readable is dispatching.
+   After every step of every script a signal that is recorded and not yet handed to the
+   watchers has an unread wakeup byte ... *)
+Theorem C18_fallback_woken : forall env fuel ops s,
+  f_run_ops false env fuel ops = Some s -> f_pend s = [] \/ (0 < f_pipe s)%nat.
+Proof. exact fallback_woken. Qed.
+Print Assumptions C18_fallback_woken.
+
+(* ... so the next iteration finds the pipe readable and runs on_sigpipe_readable -- no further
+   signal is needed --, with everything recorded so far (and what the deferred callbacks of that
+   iteration add) still recorded when the snapshot is taken ... *)
+Theorem C18_fallback_next_iteration_dispatches : forall env fuel s,
+  (f_pend s = [] \/ (0 < f_pipe s)%nat) -> f_pend s <> [] ->
+  exists s2, f_tick false env fuel s = f_sigpipe false env fuel s2 /\
+             (forall x, In x (f_pend s) -> In x (f_pend s2)) /\ (0 < f_pipe s2)%nat.
+Proof. exact fallback_next_iteration_dispatches. Qed.
+Print Assumptions C18_fallback_next_iteration_dispatches.
+
+(* ... and the snapshot the dispatch walks with is the whole pending set after the read of ONE
+   wakeup byte (whatever arrives from then on keeps its own byte: C18_fallback_woken) *)
+Theorem C18_fallback_snapshot : forall env fuel s,
+  f_sigpipe false env fuel s =
+  let s0 := f_arrivals (fu_pipe s (f_pipe s - 1)%nat) in
+  f_walk env fuel (match f_sgws s0 with [] => None | h :: _ => Some (g_id h) end) (f_pend s0) (fu_pend s0 []).
+Proof. exact fallback_snapshot. Qed.
+Print Assumptions C18_fallback_snapshot.
+
+(* the seeded variant (read moved behind the dispatch and widened to 32 bytes): the signal a
+   callback raises during the dispatch stays recorded with an empty pipe; its watcher is not
+   called in the following iterations *)
+Theorem C18_fallback_refuted_drain_late :
+  exists s, f_run_ops true wfb_env 100 wfb_ops = Some s /\ f_pend s = [12] /\ f_pipe s = O /\
+            f_run true wfb_env 100 wfb_ops = Some [OPoll 0; OEv (mkE 0 KSig 1 1 0 10); OPoll 0; OPoll 0].
+Proof. exact fallback_refuted_drain_late. Qed.
+Print Assumptions C18_fallback_refuted_drain_late.
+
 (* non-vacuity: the same two scripts on the repaired loop -- the signal watcher is invoked in
    the first iteration although the deferred callback cleared errno; the new IO watch is not
    invoked for the old descriptor's readiness *)
 Example C18_nonvacuous :
   srun fixed_cfg w24_env 100 w24_ops =
     Some [OPoll 0; OEv (mkE 1 KLater 3 1 0 0); OEv (mkE 0 KSig 1 1 0 10); OPoll 0; OPoll 0] /\
-  srun fixed_cfg w25_env 100 w25_ops = Some [OPoll 0; OEv (mkE 1 KLater 3 1 0 0)].
-Proof. exact (conj signal_reaches_witness_fixed io_exact_witness_fixed). Qed.
+  srun fixed_cfg w25_env 100 w25_ops = Some [OPoll 0; OEv (mkE 1 KLater 3 1 0 0)] /\
+  f_run false wfb_env 100 wfb_ops =
+    Some [OPoll 0; OEv (mkE 0 KSig 1 1 0 10); OPoll 0; OEv (mkE 1 KSig 1 2 0 12); OPoll 0].
+Proof. exact (conj signal_reaches_witness_fixed (conj io_exact_witness_fixed fallback_witness_fixed)). Qed.
